@@ -27,6 +27,9 @@ def gen_cases(tier, seed):
         cases.append({"part": "direct", "shard": i, "nshards": n, "tier": tier, "seed": seed})
     for i in range(48 if q else 400):
         cases.append({"part": "pipeline", "seed": seed * 5003 + i, "n": 8 if q else 24})
+    for i in range(4 if q else 40):
+        # appended later (slices / packs / unpacks folded into read and write offsets): own cases, the earlier ones denote what they always did
+        cases.append({"part": "pipeline", "seed": seed * 5003 + 100000 + i, "n": 8 if q else 24, "fams": ["shape-ops", "shape-ops", "approx-tail2"]})
     return cases
 
 
@@ -298,6 +301,8 @@ def run_pipeline(case):
     single = case.get("model_z") and case.get("wcfg")  # replay of one witness: the recorded model and configuration, not the regenerated batch
     for t in range(1 if single else case["n"]):
         fam = ["stripe-stress", "stripe-stress", "exact-chain", "buffer-stress", "exact-dag", "approx-tail", "exact-chain-big", "alias-stress", "stripe-resize", "stripe-resize", "stripe-resize", "stripe-resize", "mixed-width"][int(rng.integers(0, 13))]
+        if case.get("fams"):
+            fam = case["fams"][t % len(case["fams"])]
         if single:
             fam = case.get("wfamily", "?")
         net = netgen.make(fam, case["seed"] * 50 + t) if not single else None
